@@ -128,7 +128,7 @@ func CheckTable(d *FileDump, e *ExpTable, srs *SRS) *Mismatch {
 			return mm("row-values", "table %q row %d (%s): %d attribute values, want %d", e.Name, i, er.Label, len(r.Vals), len(er.Vals))
 		}
 		for k := range er.Vals {
-			if r.Vals[k].String() != er.Vals[k].String() {
+			if !SameValue(r.Vals[k], er.Vals[k]) {
 				return mm("row-values", "table %q row %d (%s) column %d: %s, want %s (whole row %v, want %v)", e.Name, i, er.Label, k, r.Vals[k], er.Vals[k], r.Vals, er.Vals)
 			}
 		}
